@@ -5,9 +5,12 @@ T_TEMPLATES = [t for t in R.TR_TEMPLATES if t[0] in "Tt"]
 CHANNELS = ("kw", "config", "parse")
 
 
-def render_tokens(toks, rng, newline=False):
-    """Returns (text, marker ids of the LONG text tokens)."""
+def render_tokens(toks, rng, newline=False, info=None):
+    """Returns (text, marker ids of the LONG text tokens).  With info (a dict) the section numbers are chosen
+    distinct per SEC token and info receives num2tok / seccount."""
     parts, markers = [], []
+    pool = list(range(1, 37))
+    rng.shuffle(pool)
     for i, tk in enumerate(toks, start=1):
         t = tk["t"]
         if t == "TR":
@@ -16,14 +19,23 @@ def render_tokens(toks, rng, newline=False):
             parts.append(tpl.format(t=tw, r=rg, NS=ns, EW=ew, ns=ns.lower(), ew=ew.lower(),
                                     NSw={"N": "North", "S": "South"}[ns], EWw={"E": "East", "W": "West"}[ew]))
         elif t == "SEC":
-            a = rng.randint(1, 30)
-            if tk["multi"]:
-                if rng.random() < 0.5:
-                    nums, conns = [a, a + rng.randint(1, 2)], ["THRU"]
+            if info is not None:
+                if tk["multi"]:
+                    nums, conns = [pool.pop(), pool.pop()], ["AND"]
                 else:
-                    nums, conns = [a, rng.randint(1, 36)], ["AND"]
+                    nums, conns = [pool.pop()], []
+                for n_ in nums:
+                    info.setdefault("num2tok", {})[str(n_)] = i
+                info.setdefault("seccount", {})[i] = len(nums)
             else:
-                nums, conns = [a], []
+                a = rng.randint(1, 30)
+                if tk["multi"]:
+                    if rng.random() < 0.5:
+                        nums, conns = [a, a + rng.randint(1, 2)], ["THRU"]
+                    else:
+                        nums, conns = [a, rng.randint(1, 36)], ["AND"]
+                else:
+                    nums, conns = [a], []
             parts.append(R.render_sec(nums, conns, tk["colon"], rng))
         elif t == "SECW":
             parts.append(rng.choice(["Section", "Sec.", "Sect.", "Sections"]))
